@@ -172,4 +172,60 @@ let suite_sk (t : toks) : string =
      | (Err _ | Panic _) as r -> show_res_err r
      | Ok ((), s) -> after "-" s)
 
-let suites = [ ("rt", suite_rt); ("rd", suite_rd); ("ard", suite_ard); ("sk", suite_sk) ]
+let mtype_of_int (n : int) : mtype =
+  match mtype_of_code (z_of_int n) with Some t -> t | None -> failwith "bad message type"
+
+(* msgw <pk> <bk> <name hex> <type> <seq> -> W <hex> | WERR .. *)
+let suite_msgw (t : toks) : string =
+  let p = pk_of_string (next t) in
+  let k = bk_of_string (next t) in
+  let name = bytes_of_hex (next t) in
+  let mt = mtype_of_int (next_int t) in
+  let seq = z_of_string (next t) in
+  match w_message_begin p k { m_name = name; m_type = mt; m_seq = seq } w0 with
+  | (Err _ | Panic _) as r -> "WERR " ^ show_res_err r
+  | Ok (segs, _) -> "W " ^ hex_of_bytes (flat segs)
+
+(* msgr <pk> <hex> -> ok <name hex> <type> <seq> REM <k> | err <class> *)
+let suite_msgr (t : toks) : string =
+  let p = pk_of_string (next t) in
+  let input = bytes_of_hex (next t) in
+  match r_message_begin p { rbuf = input; rc = r0 } with
+  | (Err _ | Panic _) as r -> show_res_err r
+  | Ok (m, s) ->
+    Printf.sprintf "ok %s %d %s REM %d" (hex_of_bytes m.m_name) (int_of_z (mtype_code m.m_type))
+      (string_of_z m.m_seq) (List.length s.rbuf)
+
+(* spec <pk> <value> -> the SPECIFICATION's canonical encoding (Thrift/Spec.v) *)
+let suite_spec (t : toks) : string =
+  let p = pk_of_string (next t) in
+  let v = parse_val t in
+  (match p with
+   | PCompact -> "W " ^ hex_of_bytes (sencC (annot v))
+   | PBinary -> "W " ^ hex_of_bytes (sencB (annot v))
+   | PBinaryLE -> "BADCASE no Apache specification for binary_le")
+
+(* specmsg <pk> <name hex> <type> <seq> <unused byte hex> -> the specification's envelope *)
+let suite_specmsg (t : toks) : string =
+  let p = pk_of_string (next t) in
+  let name = bytes_of_hex (next t) in
+  let mt = mtype_of_int (next_int t) in
+  let seq = z_of_string (next t) in
+  let unused = (match bytes_of_hex (next t) with [b] -> b | _ -> failwith "unused byte") in
+  (match p with
+   | PCompact -> "W " ^ hex_of_bytes (spec_msgC name mt seq)
+   | PBinary -> "W " ^ hex_of_bytes (spec_msgB name mt seq unused)
+   | PBinaryLE -> "BADCASE no Apache specification for binary_le")
+
+(* appw <pk> <message hex> <kind> : the struct {1: message, 2: type} through the writer model *)
+let suite_appw (t : toks) : string =
+  let p = pk_of_string (next t) in
+  let msg = bytes_of_hex (next t) in
+  let kind = z_of_string (next t) in
+  match write_val p BContig (VStruct [ (z_of_int 1, VBinary msg); (z_of_int 2, VI32 kind) ]) w0 with
+  | (Err _ | Panic _) as r -> "WERR " ^ show_res_err r
+  | Ok (segs, _) -> "W " ^ hex_of_bytes (flat segs)
+
+let suites = [ ("rt", suite_rt); ("rd", suite_rd); ("ard", suite_ard); ("sk", suite_sk);
+               ("msgw", suite_msgw); ("msgr", suite_msgr); ("spec", suite_spec); ("specmsg", suite_specmsg);
+               ("appw", suite_appw) ]
